@@ -50,11 +50,37 @@ class Pristine:
             self.p.kill()
 
 
-def gen_files(r, txn):
+SAME_LENGTH = {'Food': 'Fuel', 'Transport': 'Transfers', 'Transfers': 'Transport', 'Shopping': 'Supplies', 'Subscriptions': 'Subscriptionz',
+               'Income': 'Incomm', 'Bills': 'Bilds'}
+
+
+def same_size_edit(text):
+    """The same file after an edit that keeps its size: the first category value replaced by one of equal length."""
+    import re
+    m = re.search(r'^category: (\w+)$', text, re.M)
+    if not m or m.group(1) not in SAME_LENGTH:
+        return None
+    return text[:m.start(1)] + SAME_LENGTH[m.group(1)] + text[m.end(1):]
+
+
+def gen_files(r, txn, variants=()):
+    """Four rule files of one budget (two .rules, two legacy CSV) plus re-loads of the SAME path: the .rules file with
+    the other rule mode, and after an edit that keeps size and (pinned) modification time."""
     files = {}
+    pin = r.choice([None, None, 1700000000])
     for name in ('A', 'B'):
-        f = GR.gen_rules_file(r, txn, n=r.choice([1, 2, 3]))
-        files[name] = {'k': 'load', 'kind': 'rules', 'name': name, 'text': GR.render_rules(f), 'mode': r.choice(['first_match', 'most_specific'])}
+        f = GR.gen_rules_file(r, txn, n=r.choice([1, 2, 3, 4]), dup_names=r.random() < 0.3)
+        if variants and r.random() < 0.7:
+            f = RC.with_discriminators(f, txn, list(variants), r)
+        files[name] = {'k': 'load', 'kind': 'rules', 'name': name, 'text': GR.render_rules(f), 'mode': r.choice(['first_match', 'most_specific']),
+                       'order': r.choice(['rt', 'tr'])}
+        if pin:
+            files[name]['mtime'] = pin
+        other = 'most_specific' if files[name]['mode'] == 'first_match' else 'first_match'
+        files[name + 'm'] = dict(files[name], name=name + 'm', mode=other)
+        t2 = same_size_edit(files[name]['text'])
+        if t2:
+            files[name + 'e'] = dict(files[name], name=name + 'e', text=t2)
     for name in ('C', 'D'):
         rows = GR.gen_csv_rules(r, txn, n=r.choice([1, 2, 3]))
         files[name] = {'k': 'load', 'kind': 'csv', 'name': name, 'text': GR.render_csv_rules(rows)}
@@ -63,27 +89,58 @@ def gen_files(r, txn):
 
 def gen_sequence(r, n_ops):
     txn = GR.gen_txn(r)
-    files = gen_files(r, txn)
-    txns = [RC.jtxn(txn)] + [RC.jtxn(GR.gen_txn(r)) for _ in range(2)]
-    ops = []
+    # the statement lines of one history: near-duplicates of one line (one attribute changed) plus an unrelated one
+    variants = RC.txn_variants(r, txn, k=5)
+    files = gen_files(r, txn, variants)
+    txns = [RC.jtxn(txn)] + [RC.jtxn(x) for x in variants] + [RC.jtxn(GR.gen_txn(r))]
     pair = r.choice(COLLIDE)
+    names = sorted(files)
+
+    def classify(t):
+        return {'k': 'classify', 'txn': t}
+
+    def evaluate():
+        e = r.choice(pair) if r.random() < 0.7 else r.choice(r.choice(COLLIDE))
+        return {'k': 'eval', 'expr': e, 'txn': r.choice(txns), 'sources': None}
+    if r.random() < 0.5:
+        # directed: load P, classify a line and its near-duplicates, re-load the same path (other mode / edited in place /
+        # another file), classify the same lines again
+        p = r.choice('AB')
+        q = r.choice([n for n in names if n != p and (n.startswith(p) or r.random() < 0.4)] or names)
+        lines = [txns[0]] + r.sample(txns[1:], min(len(txns) - 1, r.choice([1, 2, 3])))
+        ops = [files[p]] + [classify(t) for t in lines] + [classify(lines[0])]
+        if r.random() < 0.4:
+            ops.append(evaluate())
+        ops += [files[q]] + [classify(t) for t in lines]
+        if r.random() < 0.5:
+            ops += [files[p], classify(lines[0]), classify(lines[-1])]
+        return ops
+    ops = []
     for _ in range(n_ops):
         k = r.random()
         if k < 0.35:
-            ops.append(files[r.choice('ABCD')])
+            ops.append(files[r.choice(names)])
         elif k < 0.75:
-            ops.append({'k': 'classify', 'txn': r.choice(txns)})
+            ops.append(classify(r.choice(txns)))
         else:
-            e = r.choice(pair) if r.random() < 0.7 else r.choice(r.choice(COLLIDE))
-            ops.append({'k': 'eval', 'expr': e, 'txn': r.choice(txns), 'sources': None})
+            ops.append(evaluate())
     return ops
 
 
 def run_sequence(ops, pr):
     """Returns (failures, model_case, labels) for one history."""
     from tally import merchant_utils as MU
+    import shutil
+    import tempfile
     MU.clear_engine_cache()          # a new history starts from a fresh-process-like engine state
-    state = {'rules': [], 'transforms': []}
+    state = {'rules': [], 'transforms': [], 'dir': tempfile.mkdtemp(prefix='tvhist_')}
+    try:
+        return _run_sequence(ops, pr, state)
+    finally:
+        shutil.rmtree(state['dir'], ignore_errors=True)
+
+
+def _run_sequence(ops, pr, state):
     fails, labels = [], []
     last_load = None
     loads_seen = {}
